@@ -439,6 +439,9 @@ def run(ctx):
     ctx.floor('R08.7', clip_predicate_rule(ctx, 'R08.7'), 1)
     ctx.rule('R08.4', 'axis-aligned closed form: product of the two extents, only when both are positive')
     ctx.floor('R08.4', closed_form_rule(ctx, 'R08.4'), 3)
+    import misclib
+    ctx.rule('R08.12', 'tolerances of the box code are the public constant EPS = 1e-5')
+    ctx.floor('R08.12', misclib.rule_library_epsilon(ctx, 'R08.12'), 1)
     import geomlib
     ctx.rule('R08.9', 'exact formulas (rational-function normal form): polygon of a box = its rectangle rotated by +angle '
                       'about the centre, in boundary order; area() and get_radius() are its area and circumradius')
